@@ -11,8 +11,9 @@
   insert, including the two early returns that happen *after* the invalidation loop), `append`, `replace`
   (except the "replace a scalar arg by a list => replace the parent" recursion: `none`), `pop`, the invalidation
   loop with its early exit, `__hash__` (bottom-up fill, `_hash_raw_args`, the list branch with None/False, `lower()`),
-  `__eq__`.  `__deepcopy__` is mirrored by its *result* (fresh ids in pre-order, parent links as `set`/`append`
-  leave them, `_hash` kept exactly on the nodes on which the copy performs no `set`/`append`), not by its stack loop.
+  `__eq__`, the iterative `__deepcopy__` (its explicit stack, `copy._hash = node._hash`, `copy.set` / `copy.append` /
+  `copy.args[k] = …`; the deep copies of `comments`, `_type`, `_meta` are not modelled), the walk of `transform` and the
+  loops of `replace_children` (parametric in the user function), `set(k, None, index<0)` in both its variants.
 
   Python's `hash` is abstracted by the uninterpreted functions of `HashFns` (any type `H` of hash values).
   A result `none` stands for "no heap returned": fuel exhausted (a non-terminating loop in Python), an internal
@@ -273,11 +274,13 @@ def listOf (k : String) (args : List (String × Arg)) : List Item :=
   | some (.many items) => items
   | _ => []
 
+/-- (written so that evaluating one cell of the result reads each cell of `h` at most once) -/
 def appendCore (h : Heap H) (self : Id) (k : String) (it : Item) : Heap H :=
-  let items := listOf k (h self).args
-  let h1 := setArgs h self (setKey k (.many (items ++ [it])) (h self).args)
+  let h1 := upd h self (fun nd => { nd with args := setKey k (.many (listOf k nd.args ++ [it])) nd.args })
   match it with
-  | .node c => setPtr h1 c (some self) (some k) (some items.length)
+  | .node c =>
+    upd h1 c (fun nd => { nd with parent := some self, argKey := some k,
+                                  index := some (listOf k (h self).args).length })
   | .leaf _ => h1
 
 def opAppend (fuel : Nat) (h : Heap H) (self : Id) (k : String) (it : Item) : Option (Heap H) :=
@@ -418,7 +421,7 @@ def opEq [DecidableEq H] (F : HashFns H) (fuel : Nat) (h : Heap H) (a b : Id) : 
       | none => none
       | some h2 => some (h2, decide ((h2 a).hash = (h2 b).hash))
 
-/-! ### `__deepcopy__` (by result) -/
+/-! ### which nodes keep a carried `_hash` in a copy -/
 
 /-- the copy performs no `set`/`append` on a node whose args hold no child and no non-empty list -/
 def keepsHash : List (String × Arg) → Bool
@@ -426,59 +429,6 @@ def keepsHash : List (String × Arg) → Bool
   | (_, .leaf _) :: r => keepsHash r
   | (_, .many []) :: r => keepsHash r
   | _ :: _ => false
-
-def copyItems (cp : Heap H → Nat → Id → Option (Heap H × Nat × Id)) (me : Id) (k : String) :
-    Nat → Heap H → Nat → List Item → Option (Heap H × Nat × List Item)
-  | _, h, nx, [] => some (h, nx, [])
-  | i, h, nx, .leaf s :: r =>
-    match copyItems cp me k (i + 1) h nx r with
-    | some (h', nx', r') => some (h', nx', .leaf s :: r')
-    | none => none
-  | i, h, nx, .node c :: r =>
-    match cp h nx c with
-    | none => none
-    | some (h1, nx1, c') =>
-      match copyItems cp me k (i + 1) (setPtr h1 c' (some me) (some k) (some i)) nx1 r with
-      | some (h', nx', r') => some (h', nx', .node c' :: r')
-      | none => none
-
-def copyArgs (cp : Heap H → Nat → Id → Option (Heap H × Nat × Id)) (me : Id) :
-    Heap H → Nat → List (String × Arg) → Option (Heap H × Nat × List (String × Arg))
-  | h, nx, [] => some (h, nx, [])
-  | h, nx, (k, .leaf s) :: r =>
-    match copyArgs cp me h nx r with
-    | some (h', nx', r') => some (h', nx', (k, .leaf s) :: r')
-    | none => none
-  | h, nx, (k, .one c) :: r =>
-    match cp h nx c with
-    | none => none
-    | some (h1, nx1, c') =>
-      match copyArgs cp me (setPtr h1 c' (some me) (some k) none) nx1 r with
-      | some (h', nx', r') => some (h', nx', (k, .one c') :: r')
-      | none => none
-  | h, nx, (k, .many items) :: r =>
-    match copyItems cp me k 0 h nx items with
-    | none => none
-    | some (h1, nx1, items') =>
-      match copyArgs cp me h1 nx1 r with
-      | some (h', nx', r') => some (h', nx', (k, .many items') :: r')
-      | none => none
-
-/-- copy the tree below `n` into the fresh ids `nx, nx+1, …` (pre-order); returns the new heap, the next free id
-    and the id of the copy -/
-def copyNode : Nat → Heap H → Nat → Id → Option (Heap H × Nat × Id)
-  | 0, _, _, _ => none
-  | f + 1, h, nx, n =>
-    match copyArgs (copyNode f) nx h (nx + 1) (h n).args with
-    | none => none
-    | some (h1, nx1, args') =>
-      let nd : Node H :=
-        { cls := (h n).cls, raw := (h n).raw, args := args', parent := none, argKey := none, index := none,
-          hash := if keepsHash (h n).args then (h n).hash else none }
-      some (upd h1 nx (fun _ => nd), nx1, nx)
-
-def opCopy (fuel : Nat) (h : Heap H) (n : Id) (base : Nat) : Option (Heap H × Nat × Id) :=
-  copyNode fuel h base n
 
 /-! ### `transform(fun, copy=False)` and `replace_children(node, fun)` — parametric in the user function
 
@@ -656,7 +606,8 @@ def builtinFun (fuel : Nat) (name : String) : UserFun H := fun h nx n =>
   the real `opSet` / `opAppend` (with their invalidation loops); `copy.args[k] = …` is the plain dict assignment. -/
 
 /-- `copy.args[k] = a` -/
-def assignArg (h : Heap H) (c : Id) (k : String) (a : Arg) : Heap H := setArgs h c (setKey k a (h c).args)
+def assignArg (h : Heap H) (c : Id) (k : String) (a : Arg) : Heap H :=
+  upd h c (fun nd => { nd with args := setKey k a nd.args })
 
 def dcItems (fuel : Nat) (c : Id) (k : String) :
     Heap H → Nat → List (Id × Id) → List Item → Option (Heap H × Nat × List (Id × Id))
@@ -705,6 +656,33 @@ def opDeepcopy (fuel : Nat) (h : Heap H) (n : Id) (base : Nat) : Option (Heap H 
   | some (h', nx) => some (h', nx, base)
   | none => none
 
+/-- `root.transform(fun, copy=True)` (the default): the walk runs over `root.copy()` -/
+def opTransformCopy (fuel : Nat) (fn : UserFun H) (h : Heap H) (nx : Nat) (root : Id) : Option (Heap H × Nat × Value) :=
+  match opDeepcopy fuel h root nx with
+  | some (h1, nx1, c) => opTransform fuel fn h1 nx1 c
+  | none => none
+
+/-! ### the simplifier's pointer repair loop (sqlglot/optimizer/simplify.py)
+
+  ```
+  for k, v in tuple(original.args.items()):
+      if v is None: original.args.pop(k)
+      else:         original._set_parent(k, v)
+  ```
+  No hash is invalidated: the values are unchanged, only the children's back pointers are rewritten. -/
+
+def repairStep (self : Id) (h : Heap H) : String × Arg → Heap H
+  | (k, .leaf .none) => setArgs h self (delKey k (h self).args)
+  | (k, .one c) => setPtr h c (some self) (some k) none
+  | (k, .many items) => setParentItems self k 0 items h
+  | (_, .leaf _) => h
+
+def repairLoop (self : Id) : Heap H → List (String × Arg) → Heap H
+  | h, [] => h
+  | h, e :: r => repairLoop self (repairStep self h e) r
+
+def simplifyRepair (h : Heap H) (self : Id) : Heap H := repairLoop self h (h self).args
+
 /-! ### histories -/
 
 inductive Op where
@@ -726,7 +704,7 @@ def step [DecidableEq H] (F : HashFns H) (fuel : Nat) (h : Heap H) : Op → Opti
   | .pop self => opPop fuel h self
   | .hash n => fill F fuel h n
   | .eq a b => (opEq F fuel h a b).map (·.1)
-  | .copy n base => (opCopy fuel h n base).map (·.1)
+  | .copy n base => (opDeepcopy fuel h n base).map (·.1)
 
 def run [DecidableEq H] (F : HashFns H) (fuel : Nat) : Heap H → List Op → Option (Heap H)
   | h, [] => some h
